@@ -1,4 +1,5 @@
 import Kio.Proofs.Prim
+import Kio.Proofs.DecodePrim
 import Kio.Model.Typing
 /-!
 Facts about the decoder on *arbitrary* input bytes (C10): errors stay in the allowed set, the
@@ -6,16 +7,248 @@ unread rest is a suffix of the input.
 -/
 namespace Kio
 
+/-! ### the rest is a suffix: mutual structural induction, no hypothesis on the schema -/
+
+theorem primFieldReader_suffix (env : Env) (m : FieldMeta) (flex opt : Bool) :
+    SuffixDec (primFieldReader env m flex opt) := by
+  unfold primFieldReader
+  split
+  · intro bs v r h; contradiction
+  · split
+    · intro bs v r h; contradiction
+    · exact PrimR.run_suffix env _
+
+mutual
+theorem Schema.read_suffixDec (env : Env) : (s : Schema) → SuffixDec (s.read env)
+  | .mk _ flex rh fs => by
+    have hu := Fields.readUntagged_suffixDec env flex rh fs
+    have hp := Fields.taggedPlan_suffixDec env flex rh fs
+    intro bs v r h
+    simp only [Schema.read, bind_ok_iff, Prod.exists] at h
+    obtain ⟨us, r1, h1, h2⟩ := h
+    have s1 := hu _ _ _ h1
+    split at h2
+    · simp only [pure, Except.pure, Except.ok.injEq, Prod.mk.injEq] at h2
+      obtain ⟨_, rfl⟩ := h2; exact s1
+    · simp only [bind_ok_iff, Prod.exists, pure, Except.pure, Except.ok.injEq, Prod.mk.injEq] at h2
+      obtain ⟨n, r2, h3, acc, r3, h4, _, rfl⟩ := h2
+      exact ((readTaggedLoop_suffix _ _ hp _ _ _ _ _ h4).trans (decVarint_suffix _ _ _ _ h3)).trans s1
+theorem Fields.readUntagged_suffixDec (env : Env) (flex rh : Bool) :
+    (fs : List Field) → SuffixDec (Fields.readUntagged env flex rh fs)
+  | [] => by
+    intro bs v r h
+    simp only [Fields.readUntagged, Except.ok.injEq, Prod.mk.injEq] at h
+    rw [h.2]; exact List.suffix_refl _
+  | f :: fs => by
+    have hf := Field.read_suffixDec env flex rh false f
+    have ih := Fields.readUntagged_suffixDec env flex rh fs
+    intro bs v r h
+    simp only [Fields.readUntagged] at h
+    split at h
+    · exact ih _ _ _ h
+    · simp only [bind_ok_iff, Prod.exists, pure, Except.pure, Except.ok.injEq, Prod.mk.injEq] at h
+      obtain ⟨a, r1, h1, vs, r2, h2, _, rfl⟩ := h
+      exact (ih _ _ _ h2).trans (hf _ _ _ h1)
+theorem Fields.taggedPlan_suffixDec (env : Env) (flex rh : Bool) :
+    (fs : List Field) → ∀ e ∈ Fields.taggedPlan env flex rh fs, SuffixDec e.read
+  | [] => by
+    intro e he
+    simp [Fields.taggedPlan] at he
+  | f :: fs => by
+    have hf := Field.read_suffixDec env flex rh true f
+    have ih := Fields.taggedPlan_suffixDec env flex rh fs
+    intro e he
+    simp only [Fields.taggedPlan] at he
+    split at he
+    · exact ih e he
+    · rcases List.mem_cons.1 he with rfl | he
+      · exact hf
+      · exact ih e he
+theorem Field.read_suffixDec (env : Env) (flex rh tagged : Bool) :
+    (f : Field) → SuffixDec (Field.read env flex rh tagged f)
+  | .mk m sh => by
+    have hs := Shape.read_suffixDec env flex tagged m sh
+    simp only [Field.read]
+    split
+    · exact PrimR.run_suffix env .nullableLegacyString
+    · exact hs
+theorem Shape.read_suffixDec (env : Env) (flex tagged : Bool) (m : FieldMeta) :
+    (sh : Shape) → SuffixDec (Shape.read env flex tagged m sh)
+  | .prim _ o => by
+    simp only [Shape.read]; exact primFieldReader_suffix _ _ _ _
+  | .primArr _ e a => by
+    simp only [Shape.read]; exact arrayReader_suffix _ (primFieldReader_suffix _ _ _ _)
+  | .ent s o => by
+    have hs := Schema.read_suffixDec env s
+    simp only [Shape.read]
+    split
+    · exact readNullable_suffix hs
+    · exact hs
+  | .entArr s _ => by
+    have hs := Schema.read_suffixDec env s
+    simp only [Shape.read]; exact arrayReader_suffix _ hs
+  | .bad => by
+    simp only [Shape.read]
+    intro bs v r h; contradiction
+end
+
+
+/-! ### errors are allowed: mutual structural induction over a coherent schema -/
+
+theorem primFieldReader_allowed (env : Env) (m : FieldMeta) (flex opt : Bool) (k : KType)
+    (hk : m.kafkaType = some k) (hr : (getReader k flex opt).toOption.isSome = true) :
+    AllowedDec (primFieldReader env m flex opt) := by
+  unfold primFieldReader FieldMeta.schemaFieldType
+  rw [hk]
+  cases hg : getReader k flex opt with
+  | error e => rw [hg] at hr; simp [Except.toOption] at hr
+  | ok r =>
+    have hne : k ≠ .notStr := by
+      rintro rfl
+      cases flex <;> cases opt <;> simp [getReader] at hg
+    cases k <;> first | exact absurd rfl hne | (simp only [hg]; exact PrimR.run_allowed env r)
+
+theorem tagNat_some {m : FieldMeta} {sh : Shape} {t : Nat} (h : (Field.mk m sh).tagNat = some t) :
+    m.tag.isSome = true := by
+  simp only [Field.tagNat, FieldMeta.tagNat] at h
+  cases hm : m.tag with
+  | none => rw [hm] at h; simp at h
+  | some _ => rfl
+
+mutual
+theorem Schema.read_allowedDec (env : Env) (hskip : env.skipUnknownTags = true) :
+    (s : Schema) → s.wf env = true → AllowedDec (s.read env)
+  | .mk _ flex rh fs => by
+    intro hwf
+    simp only [Schema.wf, Bool.and_eq_true] at hwf
+    have hu := Fields.readUntagged_allowedDec env hskip flex rh fs hwf.1.1
+    have hp := Fields.taggedPlan_allowedDec env hskip flex rh fs hwf.1.1
+    intro bs e h
+    simp only [Schema.read, bind_err_iff, Prod.exists] at h
+    rcases h with h | ⟨us, r1, _, h2⟩
+    · exact hu _ _ h
+    · split at h2
+      · contradiction
+      · rw [hskip] at h2
+        simp only [bind_err_iff, Prod.exists, pure, Except.pure] at h2
+        rcases h2 with h2 | ⟨n, r2, _, h2 | ⟨_, _, _, h2⟩⟩
+        · exact decVarint_allowed _ _ _ h2
+        · exact readTaggedLoop_allowed _ hp _ _ _ _ h2
+        · contradiction
+theorem Fields.readUntagged_allowedDec (env : Env) (hskip : env.skipUnknownTags = true)
+    (flex rh : Bool) :
+    (fs : List Field) → Fields.wf env flex rh fs = true →
+      AllowedDec (Fields.readUntagged env flex rh fs)
+  | [] => by
+    intro _ bs e h
+    simp [Fields.readUntagged] at h
+  | .mk m sh :: fs => by
+    intro hwf
+    simp only [Fields.wf, Bool.and_eq_true] at hwf
+    have hf := Field.read_allowedDec env hskip flex rh false (.mk m sh) hwf.1
+    have ih := Fields.readUntagged_allowedDec env hskip flex rh fs hwf.2
+    intro bs e h
+    simp only [Fields.readUntagged] at h
+    split at h
+    · exact ih _ _ h
+    · rename_i hnt
+      simp only [bind_err_iff, Prod.exists, pure, Except.pure] at h
+      rcases h with h | ⟨a, r1, _, h | ⟨_, _, _, h⟩⟩
+      · refine hf ?_ _ _ h
+        simp only [Field.isTagged] at hnt
+        simp only [Field.meta]
+        cases hm : m.tag.isSome <;> simp_all
+      · exact ih _ _ h
+      · contradiction
+theorem Fields.taggedPlan_allowedDec (env : Env) (hskip : env.skipUnknownTags = true)
+    (flex rh : Bool) :
+    (fs : List Field) → Fields.wf env flex rh fs = true →
+      ∀ e ∈ Fields.taggedPlan env flex rh fs, AllowedDec e.read
+  | [] => by
+    intro _ e he
+    simp [Fields.taggedPlan] at he
+  | .mk m sh :: fs => by
+    intro hwf
+    simp only [Fields.wf, Bool.and_eq_true] at hwf
+    have hf := Field.read_allowedDec env hskip flex rh true (.mk m sh) hwf.1
+    have ih := Fields.taggedPlan_allowedDec env hskip flex rh fs hwf.2
+    intro e he
+    simp only [Fields.taggedPlan] at he
+    split at he
+    · exact ih e he
+    · rename_i t ht
+      rcases List.mem_cons.1 he with rfl | he
+      · exact hf (by simp only [Field.meta]; exact (tagNat_some ht).symm)
+      · exact ih e he
+theorem Field.read_allowedDec (env : Env) (hskip : env.skipUnknownTags = true)
+    (flex rh tagged : Bool) :
+    (f : Field) → Field.wf env flex rh f = true → tagged = f.meta.tag.isSome →
+      AllowedDec (Field.read env flex rh tagged f)
+  | .mk m sh => by
+    intro hwf ht
+    have hs := Shape.read_allowedDec env hskip flex tagged m sh
+    simp only [Field.meta] at ht
+    simp only [Field.wf, Bool.and_eq_true] at hwf
+    simp only [Field.read]
+    split
+    · exact PrimR.run_allowed env .nullableLegacyString
+    · rename_i hc
+      have h3 := hwf.1.1.2
+      rw [if_neg (by simpa using hc)] at h3
+      exact hs h3 ht
+theorem Shape.read_allowedDec (env : Env) (hskip : env.skipUnknownTags = true)
+    (flex tagged : Bool) (m : FieldMeta) :
+    (sh : Shape) → Shape.wf env flex m sh = true → tagged = m.tag.isSome →
+      AllowedDec (Shape.read env flex tagged m sh)
+  | .prim l o => by
+    intro hwf ht
+    simp only [Shape.wf] at hwf
+    simp only [Shape.read]
+    split at hwf
+    · rename_i k hk
+      simp only [Bool.and_eq_true] at hwf
+      subst ht
+      exact primFieldReader_allowed env m flex _ k hk hwf.1.2
+    · contradiction
+  | .primArr l e a => by
+    intro hwf ht
+    simp only [Shape.wf] at hwf
+    simp only [Shape.read]
+    split at hwf
+    · rename_i k hk
+      simp only [Bool.and_eq_true] at hwf
+      exact arrayReader_allowed _ (primFieldReader_allowed env m flex _ k hk hwf.1.2)
+    · contradiction
+  | .ent s o => by
+    intro hwf ht
+    simp only [Shape.wf, Bool.and_eq_true] at hwf
+    have hs := Schema.read_allowedDec env hskip s hwf.2
+    simp only [Shape.read]
+    split
+    · exact readNullable_allowed hs
+    · exact hs
+  | .entArr s _ => by
+    intro hwf ht
+    simp only [Shape.wf, Bool.and_eq_true] at hwf
+    have hs := Schema.read_allowedDec env hskip s hwf.1.2
+    simp only [Shape.read]; exact arrayReader_allowed _ hs
+  | .bad => by
+    intro hwf
+    simp [Shape.wf] at hwf
+end
+
+
 /-- what `dec` leaves unread is a suffix of what it was given -/
 theorem Schema.read_suffix (env : Env) (s : Schema) (bs : Bytes) (v : Value) (rest : Bytes)
     (h : s.read env bs = .ok (v, rest)) : ∃ pre, bs = pre ++ rest := by
-  sorry
+  obtain ⟨pre, hpre⟩ := Schema.read_suffixDec env s bs v rest h
+  exact ⟨pre, hpre.symm⟩
 
 /-- on a coherent class (and with unknown tags skipped, i.e. the repaired reader) every decode
     error is one of kio's serialization errors, `ValueError` or `OverflowError` -/
 theorem Schema.read_err_allowed (env : Env) (hskip : env.skipUnknownTags = true)
     (s : Schema) (hwf : s.wf env = true) (bs : Bytes) (e : Err)
     (h : s.read env bs = .error e) : e.allowed = true := by
-  sorry
+  exact Schema.read_allowedDec env hskip s hwf bs e h
 
 end Kio
